@@ -16,6 +16,16 @@ VDB_RULE = ("vdb stream: one evaluation = one operation (commit on frontier / on
             "defects (key holding the empty value at X scanned from below the frontier, 734ff49; keys created after X / rolled "
             "back scanned at X and at the frontier, 522bff7) with random keys, through views, snapshots with own writes and "
             "subsets; distinct = distinct (op,result) lines")
+            "commits/pops; distinct = distinct (op,result) lines")
+VDB_MEM_RULE = ("; vdb-mem stream: the in-memory manager db.NewMemDBManager (the per-account store of the unconfirmed pool) over an "
+                "empty root or a root database that already holds 1-3 versions, driven through the same operations (commit on "
+                "the frontier - one time in four re-committing an identifier that was popped before -, pop, views at current / "
+                "popped / unknown / wrong-height identifiers, get, has, scan, put, delete) printed in the vdb line formats and "
+                "replayed through the same Lean manager model; commits on stale / abandoned / unknown parents and pops at a "
+                "non-empty root are judged by monitors only; after EVERY operation GetPatch and Get are asked for every "
+                "identifier the sequence ever used: a version of the current chain above the root has a patch that replays "
+                "over its predecessor to its contents, every other identifier (popped, never committed, wrong height, the root, "
+                "zero) answers nil - like an unknown one")
 
 LEDGER_RULE = ("ledger stream: one evaluation = one line: an accepted account block of a generated history on a real node "
                "(transfers with boundary amounts and unknown tokens, receives by addressee / third account / repeated, token "
@@ -198,8 +208,8 @@ PROPS = {
     },
     "C07": {
         "module": "ZenonVerif.Props.C07",
-        "streams": [S("vdb", 400, 20000)],
-        "rule": VDB_RULE,
+        "streams": [S("vdb", 400, 20000), S("vdb-mem", 400, 20000)],
+        "rule": VDB_RULE + VDB_MEM_RULE,
         "partial": "concurrency (readers vs writer) is not modelled: sequential model + mutex/snapshot isolation trusted; "
                    "the l1/l2 caches are not in the model (cache-free reconstruction), the cached code is compared by correspondence "
                    "(scan theorems at full strength since 734ff49: former finding F3b, historical scans dropping empty-valued keys, is fixed)",
@@ -256,11 +266,23 @@ PROPS = {
                 "journal is parsed before/after (write count + batch content replayed against the Lean write plan), plus one "
                 "crash image per cut point (journal truncated after write k, reopened with goleveldb and NewLevelDBManager: raw "
                 "key space must equal the state before or after; frontier pointer / keys / undo-redo records must agree; the "
-                "same and a competing transaction are re-delivered and compared with crash-free runs); distinct = distinct lines",
-        "partial": "process death is reproduced at the granularity of leveldb writes (one journal record per Put/Delete/Write); "
-                   "durability below leveldb (fsync, power loss, torn journal records) is leveldb's own recovery and is trusted; "
+                "same and a competing transaction are re-delivered and compared with crash-free runs); and the images of a process "
+                "death INSIDE a write: goleveldb hands a journal record to the file in 32 KiB blocks with one write(2) each, so per "
+                "operation the journal is also cut at every block boundary inside the operation's bytes (a sample of the boundaries "
+                "for records of more than 6 blocks), around one boundary (inside the 7-byte chunk header, header without payload, "
+                "block write short by 1-3 bytes, inside the chunk), inside the first and the last chunk, and at an arbitrary byte "
+                "offset; one image in five additionally gets a tail of zeros or arbitrary bytes (to the end of the block / a few bytes "
+                "/ into the following blocks); every such image is opened FIRST by the real NewLevelDBManager (as a restarting node "
+                "does - it must open), its raw key space must equal the state before or after, the operation is re-delivered on the "
+                "recovered image (all block-boundary images and a third of the others) and the bookkeeping checks run on a quarter; "
+                "a quarter of the commits carry 12-80 KiB of values (records of 2-8 blocks), one in ten a few hundred KiB, one "
+                "sequence in six a commit of megabytes that is then rolled back; distinct = distinct lines",
+        "partial": "process death is reproduced at the granularity of the write(2) calls of goleveldb's journal writer (record "
+                   "boundaries and the 32 KiB block boundaries inside a record) plus short writes and file-system tails; what "
+                   "goleveldb does with a torn record is its own recovery code, executed for real on every image but not modelled; "
+                   "fsync / power-loss reordering between files is outside the property (process death); "
                    "the node-level commit (chain.AddMomentumTransaction) adds no further leveldb write to the ledger database",
-        "assumptions": ["goleveldb: one journal record per write call, handed to the OS before the call returns; a batch is atomic w.r.t. process death"],
+        "assumptions": ["goleveldb: one journal record per write call, handed to the OS (block by block) before the call returns; a batch is atomic w.r.t. process death"],
     },
     "C06": {
         "module": "ZenonVerif.Props.C06",
@@ -409,7 +431,8 @@ PROPS = {
     "C14": {
         "module": "ZenonVerif.Props.C14",
         "streams": [S("prio", 20000, 1000000), S("filter", 4000, 200000), S("pool", 400, 30000),
-                    S("pool-batch", 60, 3000, driver=False)],
+                    S("pool-batch", 60, 3000, driver=False), S("vdb-mem", 400, 20000),
+                    S("pool-node", 20, 300, driver=False, timeout=7200)],
         "rule": "prio stream: all ordered pairs of boundary (TotalPlasma, BasePlasma) values incl. 0 and the caps, then random "
                 "pairs (equal ratios, same plasma, same hash, hashes one bit apart, zero plasma, full uint64 range so the "
                 "products wrap, in-range), each evaluated in both directions on chain.higherPriority and on the model, plus "
@@ -420,10 +443,37 @@ PROPS = {
                 "plasma, duplicates, competitor of a confirmed block, non-linking blocks, forced adds, momentum confirming "
                 "a prefix of the pool / a competitor / nothing, momentum rollback), after every operation the frontier and "
                 "the uncommitted blocks are compared with the Lean state machine; pool-batch stream (monitors only): a contract "
-                "receive with 0-3 descendant blocks pooled across a momentum, and 2-6 addresses rebuilt by one momentum that "
-                "forks some of them; distinct = distinct (op,result) lines",
+                "receive with 0-3 descendant blocks pooled across a momentum, 2-6 addresses rebuilt by one momentum that "
+                "forks some of them, and the momentum content of a pool about as full as a momentum (1-3 contract accounts whose "
+                "chain is a multi-block batch followed by smaller batches, user accounts with 1-14 blocks, the real limit 100 or "
+                "the package variable lowered to 3-12): GetNewMomentumContent asked 40 times per pool state (the pool enumerates "
+                "accounts in map order), every answer must stay within the limit, be per account a gap-free prefix of the pooled "
+                "chain, and take a contract's batch whole or not at all; the pool stream additionally asks GetPatch for every block "
+                "the sequence ever offered after every operation: it answers exactly for the blocks of the uncommitted chain "
+                "(a displaced, rolled back, refused or confirmed block is not in the pool); a pooled receive with 1-3 descendants "
+                "displaced by a force-inserted competitor must leave the competitor alone in the pool and no patch for the displaced "
+                "receive (that its descendant blocks still answer GetPatch / GetAccountStore on the current tree is counted in the "
+                "stats as batch-displaced-descendant-still-answers, not judged)" + VDB_MEM_RULE + "; pool-node stream "
+                "(monitors only): per history a real producing node builds a trunk and three branches forking at one momentum (X "
+                "confirming [p, p2] of one account in one momentum, Y confirming the competitors [q, q2], Z confirming p alone and p2 "
+                "one momentum later; each longer than the one before; generated traffic incl. contract calls everywhere) - every "
+                "chain.RollbackTo and every produced momentum of the producer is a checked operation; 12 follower nodes per "
+                "history are fed through the real ChainBridge: three-step sequences (the lower-priority one of p/q gossiped, "
+                "optionally with its child, displaced by the competitor, then InsertChain of the momentum confirming the displaced "
+                "block with its child / the winner with its child / p alone), reorganisations (a node on or near the tip of a "
+                "branch, with gossiped blocks of the other branch, is handed the longer branch: depth 1-8, twice in a row), random "
+                "walks over gossip / extension / switch; every valid delivery must be adopted; every node carries reader "
+                "listeners that call GetFrontierAccountStore / GetUncommittedAccountBlocksByAddress / GetAllUncommittedAccount"
+                "Blocks / GetPatch / GetAccountStore for the accounts a momentum touches INSIDE the insert and delete "
+                "notifications, registered before and after the account pool in listener order (followers) or after it "
+                "(producer); after every operation, for all 28 genesis and contract accounts: the uncommitted blocks form one "
+                "chain on the account's last confirmed block in the ledger, the pool's frontier store is that chain's head and "
+                "shows the ledger's block at the confirmed height, GetPatch answers exactly for the blocks of that chain among "
+                "all blocks the history knows, and between p and q the pool keeps the one the rule names; "
+                "distinct = distinct (op,result) lines",
         "partial": "data-race freedom / readers never observing a half-applied block are runtime properties of Go's memory "
-                   "model, not theorems; the pool state machine (model and stream) covers one address and one-block transactions; "
+                   "model, not theorems: readers are interposed deterministically at the listener boundaries of momentum insert / "
+                   "delete (pool-node stream), not at arbitrary instructions; the pool state machine (model and stream) covers one address and one-block transactions; "
                    "contract receives with descendant blocks are covered by the pool-batch monitors only; independence of the "
                    "addresses in rebuild is the regenerated fact rebuild_no_early_return plus the pool-batch multi-address monitor",
         "assumptions": ["accepted user blocks carry TotalPlasma <= MaxPlasmaForAccountBlock and 0 < BasePlasma <= "
